@@ -13,7 +13,7 @@ LEAN_MODULES = ["NdInterp.Props.C20", "NdInterp.Props.RatTie"]
 THEOREM_FILES = [("NdInterp/Props/C20.lean", "C20_")]
 RULE = ("metamorphic, on the real code: a base case (one query) and variants in which every non-bracketing data row/column is "
         "replaced by NaN, +-inf or random values, or every non-bracketing knot is moved within its neighbours; Linear and Bilinear, "
-        "in range and extrapolated, all lanes, axes and data stored as plain, strided or reversed-stride views (one layout per group); results must be bit-identical at f64 and equal at Q. The base cases also run through "
+        "in range and extrapolated (queries incl. the floats adjacent to knots), all lanes, axes and data stored as plain, strided or reversed-stride views (one layout per group); results must be bit-identical at f64 and equal at Q. The base cases also run through "
         "the model correspondence. non-trivial = variant that changes at least one value; distinct = distinct variant line")
 PARTIAL = []
 ASSUMPTIONS = ["C20_*_axis is proved over ordered fields; for f64 the premise 'same bracket' is what the bitwise runs exercise"]
@@ -99,10 +99,14 @@ def extra(rng, tier):
                 flat = gen.vals_q(rng, n * L)
                 q = rng.choice(gen.queries_q(rng, xs, 8, ext=ext))
             else:
-                xs = gen.axis_f(rng, n, rng.choice(["uniform", "geometric", "random", "evenish"]))
+                xs = gen.axis_f(rng, n, rng.choice(["uniform", "geometric", "random", "evenish", "even", "even"]))
                 flat = [rng.uniform(-9, 9) for _ in range(n * L)]
                 span = xs[-1] - xs[0]
-                q = rng.choice([rng.uniform(xs[0], xs[-1]), xs[rng.randrange(n)]] + ([xs[0] - span * 0.3, xs[-1] + span * 2] if ext else []))
+                kq = xs[rng.randrange(n)]
+                q = rng.choice([rng.uniform(xs[0], xs[-1]), kq, vlib.next_down(kq), vlib.next_up(kq), vlib.next_down(vlib.next_down(kq))] +
+                               ([xs[0] - span * 0.3, xs[-1] + span * 2] if ext else []))
+                if not ext:
+                    q = min(max(q, xs[0]), xs[-1])
             i = lin_bracket(xs, q)
             base = len(lines)
             lines.append(i1_line(S, xs, shape, flat, ("lin", ext), e_array(S, [1], [q]), xlay=lx, dlay=ld))
